@@ -58,8 +58,8 @@ CLAIMED = {
     'C08': dict(
         text="Lean theorems about the decorator model: verdict and payload-derived content identical under all 8 switch settings, raised iff switch on, "
              "flag set iff off, other errors never swallowed, composite helpers sound when they call undecorated (and a proved counterexample when they "
-             "do not). client.py's call graph is extracted by an AST walk on every run and the kernel checks `usesResult -> undecorated` and that all 80 entry "
-             "points are managed. Tied by running every entry point x reply kinds x all 8 combinations on the real client.",
+             "do not). client.py's call graph is extracted by an AST walk on every run and the kernel checks `usesResult -> undecorated` and that every entry "
+             "point is managed. Tied by running every entry point x reply kinds x all 8 combinations on the real client.",
         design_ref='DESIGN.md §3 C08',
         technique='Lean 4 proof (case analysis) + AST-extracted call graph tie (decide) + metamorphic/differential suite over 8 switch settings'),
     'C09': dict(
@@ -115,8 +115,8 @@ CLAIMED = {
              "standard's order and width, and an independent server-side decoder (Uds/Spec/Request.lean) gives back the caller's arguments, for arbitrary identifiers, lists, byte strings and "
              "widths; inside a suppress block only bit 7 of the sub-function byte changes and the decoder reads it back; services without sub-function cannot carry it. The decoder round trip is "
              "a theorem for every builder, including RequestFileTransfer (rft_frame_decodes), all 13 simple wrappers and DynamicallyDefineDataIdentifier by source identifier. The sub-function "
-             "groups of read_dtc_information, its MemorySelection list, the per-mode parameter lists of RequestFileTransfer and every validate_int literal are extracted from the source AST on "
-             "every run and proved equal to the model's (Tie/Groups, Tie/Bounds). Tied by structured calls on every entry point and wrapper: real client vs udsdrv, and the Spec decoder applied "
+             "dispatch of read_dtc_information and RequestFileTransfer (accepted argument kits and reply readings for every sub-function / mode byte) and the accepted interval of 30 validated "
+             "arguments are obtained by running the real code on fixed probes on every run; the kernel evaluates the model on the same probes and demands the same tables (Tie/Groups, Tie/Bounds). Tied by structured calls on every entry point and wrapper: real client vs udsdrv, and the Spec decoder applied "
              "to the frame the real client sent.",
         design_ref='DESIGN.md §3 C01',
         technique='Lean 4 proof (decode∘encode per service, list induction, table tie by decide +kernel) + differential correspondence + Spec decoder on the implementation\'s frames'),
@@ -157,8 +157,8 @@ CLAIMED = {
         text="Lean theorems: for every request builder, make_request succeeds IFF the arguments are in the documented domain (accept-iff theorems: identifier ranges, configured codecs and their "
              "lengths, read-all codec only last, IO masks defined and fitting, sub-function defined and allowed by the edition, every ISO request parameter present and in range, dtc_class rule, "
              "file-transfer mode / path / DataFormatIdentifier / Filesize object rules incl. width, authentication task fields, communication type / node id, link-control baudrate forms, "
-             "memory values fitting their width via C14); every validate_int(min, max) literal in the services is extracted from the AST on every run and the model builder is proved to accept "
-             "exactly that interval at both boundaries (Tie/Bounds); a failing builder "
+             "memory values fitting their width via C14); the accepted interval of every validated integer argument (30 arguments, 16 services) is obtained on every run by running the real builders at 47 probe values around every "
+             "power-of-two boundary, and the model builder is proved to accept exactly that interval at both boundaries (Tie/Bounds); a failing builder "
              "precedes send_request, so nothing is sent. Known findings (KNOWN-FINDING lines): superfluous parameters of read_dtc_information / authentication are ignored, the two 'todo' "
              "sub-functions are transmitted bare, extended-data size is validated after sending. Tied by the out-of-domain stream on the real client (connection untouched) and a wrong-type sweep "
              "over every int-annotated parameter of all 80 entry points.",
